@@ -55,16 +55,12 @@ def determine_freq_gap_interval(pixel_dist: Counter, gap_threshold: int) -> list
     if len(common_pixels) == 0:
         return gap_pixel_intervals
     curr_interval = new_gap_pixel_interval(common_pixels[0])
-    prev_interval_end = 0
     for curr_index, curr_pixel in enumerate(common_pixels[:-1]):
         next_pixel = common_pixels[curr_index + 1]
         if next_pixel - curr_pixel < gap_threshold:
             curr_interval["end"] = next_pixel
         else:
-            if curr_interval["start"] - prev_interval_end < gap_threshold:
-                continue
             gap_pixel_intervals += [curr_interval]
-            prev_interval_end = curr_interval["end"]
             curr_interval = new_gap_pixel_interval(next_pixel)
     gap_pixel_intervals += [curr_interval]
     return gap_pixel_intervals
